@@ -44,6 +44,9 @@ func mapSorted(kind string) bool {
 func mapBidi(kind string) bool { return kind == "hashbidimap" || kind == "treebidimap" }
 
 func newMap(kind, cmp, vcmp string, m int) maps.Map[int, V] {
+	if cmp == "dflt" { // New(): built-in comparator, float keys (fam_dflt.go)
+		return newDefaultMap(kind, m)
+	}
 	switch kind {
 	case "hashmap":
 		return hashmap.New[int, V]()
@@ -69,9 +72,16 @@ func newMap(kind, cmp, vcmp string, m int) maps.Map[int, V] {
 func (x *mapInst) Fam() string  { return "map" }
 func (x *mapInst) Kind() string { return x.kind }
 func (x *mapInst) Cfg() Ev {
-	return Ev{"zero": 0, "sorted": mapSorted(x.kind), "cmp": baseCmp(x.cmp), "linked": x.kind == "linkedhashmap",
+	return Ev{"zero": 0, "sorted": mapSorted(x.kind), "cmp": cfgCmp(x.cmp), "linked": x.kind == "linkedhashmap",
 		"bidi": mapBidi(x.kind), "vsorted": x.kind == "treebidimap", "vcmp": baseCmp(x.vcmp), "m": x.m, "mag": isMag(x.cmp),
 		"aligned": !mapBidi(x.kind) && x.kind != "hashmap", "tree": treeKind(x.kind)}
+}
+
+func cfgCmp(c string) string {
+	if c == "dflt" {
+		return "nat" // the int codes of the float keys are in cmp.Compare order
+	}
+	return baseCmp(c)
 }
 
 // which balanced tree carries the comparator work (C07)
@@ -520,6 +530,14 @@ func (u *mapUniverse) Calls(x Inst) []Call {
 			break
 		}
 		pairs = append(pairs, k, v)
+	}
+	if u.cmp == "dflt" {
+		return cs
+	}
+	if treeKind(u.kind) != "" && len(pairs) > 2 {
+		// the tree loaders insert in Go's map iteration order, so the SHAPE after a load of several members differs
+		// from run to run: inside the tours (which replay paths) trees load one member at most
+		pairs = pairs[:2]
 	}
 	cs = append(cs, Call{Op: "FromJSON", Vs: []int{}}, Call{Op: "FromJSON", Vs: pairs})
 	if len(pairs) > 2 {
